@@ -38,6 +38,8 @@ def _utf8_encode_cp(z, errors):
             return [0x3F]
         if errors == "strict":
             raise UnicodeEncodeError("utf-8", "\ud800", 0, 1, "surrogates not allowed")
+        if errors == "surrogatepass":
+            return [0xE0 | z3.LShR(z, 12), 0x80 | (z3.LShR(z, 6) & 0x3F), 0x80 | (z & 0x3F)]
         raise Unsupported("utf-8 encode errors=%r" % errors)
     if truth(mk_bool(z < 0x10000)):
         return [0xE0 | z3.LShR(z, 12), 0x80 | (z3.LShR(z, 6) & 0x3F), 0x80 | (z & 0x3F)]
